@@ -410,11 +410,12 @@ def group_coq(g, renames) -> str:
     sh = d["shape"]
     rows = coq_list([V.to_row(k, [t for _, t in sh.ids], m, [t for _, t in sh.ms]) for k, m in d["rows"]])
     dterm = f"(mkD {coq_list([coq_string(n) for n, _ in sh.ids])} {coq_list([coq_string(n) for n, _ in sh.ms])} {rows})"
-    return f"(let D := {dterm} in {coq_list([inv_coq(inv, ren) for inv, ren in zip(g['invs'], renames)])})"
+    # every case: (the theorems' decidable hypothesis total_order evaluated on this very input, the model's result)
+    return f"(let D := {dterm} in {coq_list(['(total_order D ' + spec_coq(inv) + ', ' + inv_coq(inv, ren) + ')' for inv, ren in zip(g['invs'], renames)])})"
 
 
 def eval_groups(groups, renames_list, tag):
-    return coq_eval(HEADER, [group_coq(g, r) for g, r in zip(groups, renames_list)], tag, shard=1)
+    return coq_eval(HEADER, [group_coq(g, r) for g, r in zip(groups, renames_list)], tag, shard=3)
 
 
 # ------------------------------------------------------------------ comparison
